@@ -199,6 +199,32 @@ where
     }
 }
 
+/// Modulus of the BLS12-381 base field as little-endian 64-bit limbs.
+const BASE_FIELD_MODULUS: [u64; 6] = [
+    0xb9fe_ffff_ffff_aaab,
+    0x1eab_fffe_b153_ffff,
+    0x6730_d2a0_f6b0_f624,
+    0x6477_4b84_f385_12bf,
+    0x4b1b_a7b6_434b_acd7,
+    0x1a01_11ea_397f_e69a,
+];
+
+/// Whether the little-endian limbs of a raw coordinate are below the base
+/// field modulus.
+fn raw_coordinate_is_reduced(limbs: &[u8]) -> bool {
+    for (limb, modulus) in
+        limbs.chunks_exact(u64::SIZE).zip(BASE_FIELD_MODULUS).rev()
+    {
+        let mut bytes = [0u8; u64::SIZE];
+        bytes.copy_from_slice(limb);
+        let limb = u64::from_le_bytes(bytes);
+        if limb != modulus {
+            return limb < modulus;
+        }
+    }
+    false
+}
+
 impl CommitKey {
     /// Serialize the [`CommitKey`] into bytes.
     ///
@@ -284,6 +310,21 @@ impl CommitKey {
         let mut powers_of_g = Vec::with_capacity(len);
 
         for chunk in bytes[u64::SIZE..].chunks_exact(G1Affine::RAW_SIZE) {
+            // The raw form stores each coordinate's internal limbs followed
+            // by the infinity flag. The unchecked constructor below takes
+            // them as they are, so reject a flag that is not a boolean (it
+            // would otherwise trip a debug assertion) and limbs that are not
+            // reduced modulo the base field (a second encoding of a point).
+            let flag = chunk[G1Affine::RAW_SIZE - 1];
+            let (x, y) = chunk[..G1Affine::RAW_SIZE - 1]
+                .split_at((G1Affine::RAW_SIZE - 1) / 2);
+            if flag > 1
+                || !raw_coordinate_is_reduced(x)
+                || !raw_coordinate_is_reduced(y)
+            {
+                return Err(Error::PointMalformed);
+            }
+
             // Safety: raw-byte chunk size is checked by `chunks_exact`.
             let point = unsafe { G1Affine::from_slice_unchecked(chunk) };
             let point_is_valid =
